@@ -72,6 +72,34 @@ def struct_program(rng):
     arrays = rng.choice([None, "const", "indexed", "indexed"])
     absolute = arrays is not None and rng.random() < 0.4
     regs_assignable = use_regs and arrays != "indexed"
+    # stage 6: 16-bit destinations p, q (unsigned short); operands: 16-bit variables, constants up to 65535,
+    # 8-bit variables (zero-extended)
+    wide = rng.random() < 0.5
+
+    def wopnd(allow_const=True):
+        k = rng.random()
+        if allow_const and k < 0.35:
+            n = rng.choice([0, 1, 5, 255, 256, 300, 4660, 65280, 65535, 0x0100, 0x00ff, 0x01ff, 0x0200])
+            return "k%d" % n, str(n), True
+        if k < 0.75:
+            v = rng.choice("pq")
+            return "w" + v, v, False
+        v = rng.choice(names)
+        return "b" + v, v, False
+
+    def wflat():
+        d = rng.choice("pq")
+        k = rng.random()
+        if k < 0.3:
+            t, s_, _ = wopnd()
+            return "wasg:%s:%s" % (d, t), "%s = %s;" % (d, s_)
+        o = rng.choice(OPS)
+        if k < 0.7:
+            t1, s1, c1 = wopnd()
+            t2, s2, c2 = wopnd(allow_const=not c1)
+            return "wbin:%s:%s:%s:%s" % (d, o[0], t1, t2), "%s = %s %s %s;" % (d, s1, o[1], s2)
+        t, s_, _ = wopnd()
+        return "woas:%s:%s:%s" % (d, o[0], t), "%s %s= %s;" % (d, o[1], s_)
 
     def element():
         t = rng.choice(["t", "u"])
@@ -104,6 +132,8 @@ def struct_program(rng):
         return "v" + v, v
 
     def flat():
+        if wide and rng.random() < 0.35:
+            return wflat()
         k = rng.random()
         lt, ls = lvalue()
         if k < 0.3:
@@ -231,10 +261,12 @@ def struct_program(rng):
         toks += t; lines.append(s_)
     q = "ramchip " if absolute else ""
     decl = "unsigned char a, b, c, d;\n" + ("%sunsigned char t[8];\n%sunsigned char u[4];\n" % (q, q) if arrays else "")
+    if wide:
+        decl += "unsigned short p, q;\n"
     src = decl + "void main() {\n  " + "\n  ".join(lines) + "\n}\n"
     if absolute:
         toks = ["abs=t,u"] + toks
-    return src, toks, arrays
+    return src, toks, (arrays, wide)
 
 
 def run(chk):
@@ -258,11 +290,14 @@ def run(chk):
             chk.sample({"fragment_program": src[:300]})
     # ---- tie: the stage-2 port (structured control flow, flag belief), instructions and labels text-exact ----
     for i in range(chk.scale(400, 6000)):
-        src, toks, arrays = struct_program(rng)
+        src, toks, (arrays, wide) = struct_program(rng)
         r = h.compile(src, 0)
         ma = m.req("genstruct " + " ".join(toks))
         if arrays:
             chk.count("struct_arrays_" + arrays)
+        if wide:
+            chk.count("struct_wide")
+            chk.count("struct_wide_statements", sum(1 for t in toks if t.startswith("w") and ":" in t and t.split(":")[0] in ("wasg", "wbin", "woas")))
         ptoks = toks[1:] if toks and toks[0].startswith("abs=") else toks
         chk.case(key=src, nontrivial=any(t in ("if", "ife", "wh", "do", "for") for t in toks))
         for t in toks:
@@ -294,6 +329,11 @@ def run(chk):
                     if arrays:
                         vals["t"] = [pick() for _ in range(8)]; vals["u"] = [pick() for _ in range(4)]
                         objs += ["t", "u"]
+                    if wide:
+                        for n in "pq":
+                            w = rng.choice([0, 1, 255, 256, 0x01ff, 0x7fff, 0x8000, 0xff00, 0xffff, rng.randrange(65536)])
+                            vals[n] = [w & 0xFF, w >> 8]
+                        objs += ["p", "q"]
                     if arrays == "indexed":
                         vals["X"] = rng.randrange(4); vals["Y"] = rng.randrange(4)
                     show = lambda v: ",".join(str(x) for x in v) if isinstance(v, list) else str(v)
@@ -303,7 +343,7 @@ def run(chk):
                     want = {}
                     for t in exp[3:].split(" "):
                         k, v = t.split("=")
-                        want[k] = [int(x) for x in v.split(",")] if k in ("t", "u") else int(v)
+                        want[k] = [int(x) for x in v.split(",")] if k in ("t", "u", "p", "q") else int(v)
                     mem = dict(init)
                     for n, v in vals.items():
                         if n in regions:
@@ -320,7 +360,7 @@ def run(chk):
                         for n in objs:
                             ln = regions[n][1]
                             cells = list(res["mem"][off:off + ln]); off += ln
-                            got[n] = cells if n in ("t", "u") else cells[0]
+                            got[n] = cells if n in ("t", "u", "p", "q") else cells[0]
                     else:
                         got = {"stop": res["stop"]}
                     if got != want:
